@@ -197,6 +197,14 @@ def compare(res, got, sel, conc, p, doc, case, entry, identity=True):
     return ok
 
 
+def _div_chain(parts):
+    """DataPath(first) / second / third ... (each further part given as a part object or primitive)."""
+    out = DataPath(T.build_part(parts[0]))
+    for x in parts[1:]:
+        out = out / T.build_part(x)
+    return out
+
+
 def check_case(res, p, doc, key, history=None):
     res.count("evaluations")
     res.state(*key)
@@ -215,6 +223,14 @@ def check_case(res, p, doc, key, history=None):
         ("Data.get(*parts)", lambda: Data(d).get(*[T.build_part(x) for x in parts])),
         ("bound source_data", lambda: T.build_path(p, source_data=d).get_data()),
     )
+    if len(parts) >= 2:
+        # the same path assembled with the `/` operator from two shorter paths, at every split point
+        def joined(k):
+            return lambda: (DataPath(*[T.build_part(x) for x in parts[:k]]) / DataPath(*[T.build_part(x) for x in parts[k:]])).get_data(d)
+        # (a path assembled from part objects is never "concrete": it answers with a list)
+        entries = entries + tuple(("joined at %d" % k, joined(k)) for k in range(1, len(parts)))
+        if all(x[0] != "prim" for x in parts[1:]):      # (`path / primitive` is not offered by the library)
+            entries = entries + (("joined part by part", lambda: _div_chain(parts).get_data(d)),)
     for entry, fn in entries:
         res.count("transitions")
         try:
@@ -226,7 +242,7 @@ def check_case(res, p, doc, key, history=None):
             return
         # through a Data wrapper the (mapping) document itself is rebuilt: compare by value there
         identity = not (not parts)
-        if not compare(res, got, sel, conc, p, doc, case, entry, identity=identity):
+        if not compare(res, got, sel, conc and not entry.startswith("joined"), p, doc, case, entry, identity=identity):
             return
     if vsnap(d) != before:   # (C08's side condition, checked everywhere it is cheap)
         res.violation("document-changed:%s" % shape(p), "resolving %s changed the document %r -> %r" % (T.show(p), doc, d), case,
